@@ -21,7 +21,7 @@ import hashlib
 from fractions import Fraction
 
 VERIF = os.path.dirname(os.path.dirname(os.path.abspath(__file__)))
-REPO = "/repo"
+REPO = os.environ.get("VERIF_REPO", "/repo")  # VERIF_REPO: development only (mutant copies); registered commands use /repo
 PY = "/venv/bin/python"
 
 
